@@ -157,6 +157,9 @@ def report(prop, tier, seed, results, wall, write=True) -> int:
             if len(samples) < 12:
                 samples.append({"program": job.get("pid"), "opts": job.get("opts"), "case": enc(s)})
 
+    if os.environ.get("VF_VERBOSE"):
+        for job, f in new_viol[:400]:
+            print("NEW", job.get("pid"), job.get("variant"), job.get("obs"), f["kind"], json.dumps(enc(f.get("witness")))[:260])
     exit_code = 0
     js = js_cross_check(results)
     if js and js.get("n_disagreements"):
